@@ -790,15 +790,16 @@ func (x *c06ctx) evalX(full c06case) {
 	}
 	switch c.What {
 	case "uniq":
+		// (vacuity counters of this file: what the reference model demands, counted before the run)
+		if len(c06xmodel(c.Recs, o, o.NoSingleton)) < len(c.Recs) {
+			r.Count("cli_runs_with_a_merge", 1)
+		}
 		st := x.xstep(c, "obiuniq", args, nil)
 		if x.xabnormal(site, st, c, full) {
 			return
 		}
 		canon := x.xcheckUniq(site, st.out, c, full)
 		r.State("x|" + strings.Join(args, " ") + "|" + canon)
-		if len(st.out) < len(c.Recs) {
-			r.Count("cli_runs_with_a_merge", 1)
-		}
 
 	case "demerge":
 		// obidemerge -d <k> on the raw records: a record with merged_<k> gives one record per value with
@@ -853,6 +854,12 @@ func (x *c06ctx) evalX(full c06case) {
 
 	case "roundtrip":
 		mk := o.Merges[0]
+		for _, cl := range c06xmodel(c.Recs, o, o.NoSingleton) {
+			if len(cl.Stats[0]) > 1 {
+				r.Count("cli_roundtrips_with_a_split", 1)
+				break
+			}
+		}
 		s1 := x.xstep(c, "obiuniq", args, nil)
 		if x.xabnormal(site, s1, c, full) {
 			return
@@ -884,9 +891,6 @@ func (x *c06ctx) evalX(full c06case) {
 		if strings.Join(gotD, " ; ") != strings.Join(wantD, " ; ") {
 			r.Violate("cli("+c.Mode+")/demerge/records", fmt.Sprintf("%s: obiuniq gave {%s}; obidemerge -d %s gave {%s} want {%s}", c06xcaseString(c),
 				canon1, mk, strings.Join(gotD, " ; "), strings.Join(wantD, " ; ")), full)
-		}
-		if len(gotD) > len(obs1) {
-			r.Count("cli_roundtrips_with_a_split", 1)
 		}
 		s3 := x.xstep(c, "obiuniq", args, s2.out)
 		if x.xabnormal(site+"/roundtrip", s3, c, full) {
